@@ -115,6 +115,16 @@ struct StreamSt {
     key: Key,
     issued: bool,
     ended: bool,
+    /// receiver end of a task-to-task channel (index into `Model::pipes`) instead of a shell stream
+    pipe: Option<usize>,
+}
+
+#[derive(Clone, Debug)]
+struct Pipe {
+    queue: VecDeque<u64>,
+    consumer: TaskId,
+    /// the producer task (and with it the sender) is gone
+    closed: bool,
 }
 
 #[derive(Clone, Debug)]
@@ -160,6 +170,8 @@ struct ScriptSt {
     handles: Vec<TaskId>,
     holds: Vec<u32>,
     blocked: Option<Blocked>,
+    /// sender end of a task-to-task channel
+    pipe_out: Option<usize>,
 }
 
 #[derive(Clone, Debug)]
@@ -212,6 +224,7 @@ pub struct Model {
     eff_out: Vec<EffObs>,
     ev_out: Vec<(usize, EvObs)>,
     pending_roots: Vec<Box<Cmd>>,
+    pipes: Vec<Pipe>,
     started_any: bool,
     /// counter -> (created, dropped)
     pub holds: HashMap<u32, (u32, u32)>,
@@ -240,6 +253,7 @@ impl Model {
             eff_out: vec![],
             ev_out: vec![],
             pending_roots: vec![],
+            pipes: vec![],
             started_any: false,
             holds: HashMap::new(),
             steps: 0,
@@ -761,11 +775,13 @@ impl Model {
                 r.receiver_alive = false;
             }
         }
+        let mut closed_pipe = None;
         match &mut self.tasks[t].kind {
             Tk::Script(st) => {
                 for h in st.holds.drain(..) {
                     self.holds.entry(h).or_insert((0, 0)).1 += 1;
                 }
+                closed_pipe = st.pipe_out.take();
             }
             Tk::Host { guard, .. } => {
                 if let Some(g) = guard.take() {
@@ -773,6 +789,11 @@ impl Model {
                 }
             }
             _ => {}
+        }
+        if let Some(p) = closed_pipe {
+            // the sender goes with the producer: the consumer sees the end of the channel
+            self.pipes[p].closed = true;
+            self.wake_pipe_consumer(p);
         }
     }
 
@@ -976,6 +997,20 @@ impl Model {
         }
     }
 
+    fn wake_pipe_consumer(&mut self, p: usize) {
+        let c = self.pipes[p].consumer;
+        if !self.tasks[c].alive {
+            return;
+        }
+        let blocked_on_it = match &self.tasks[c].kind {
+            Tk::Script(st) => matches!(&st.blocked, Some(Blocked::Next(i)) if st.streams[*i].as_ref().and_then(|s| s.pipe) == Some(p)),
+            _ => false,
+        };
+        if blocked_on_it {
+            self.ready.push_back(c);
+        }
+    }
+
     fn wake_if_registered(&mut self, owner: TaskId, key: Key) {
         if !self.tasks[owner].alive {
             return;
@@ -984,7 +1019,7 @@ impl Model {
             Tk::Chain(st) => chain_blocking_keys(st, &self.reqs).contains(&key),
             Tk::Script(st) => match &st.blocked {
                 Some(Blocked::Req(k)) => *k == key,
-                Some(Blocked::Next(i)) => st.streams[*i].as_ref().map(|s| s.key) == Some(key),
+                Some(Blocked::Next(i)) => st.streams[*i].as_ref().filter(|s| s.pipe.is_none()).map(|s| s.key) == Some(key),
                 Some(Blocked::JoinAll { keys, got }) => keys
                     .iter()
                     .zip(got)
@@ -1082,6 +1117,7 @@ impl Model {
                                 key: (*site, v),
                                 issued: false,
                                 ended: false,
+                                pipe: None,
                             });
                         }
                         Pull::Pending => {
@@ -1109,6 +1145,7 @@ impl Model {
                                 key: (*site, v),
                                 issued: false,
                                 ended: false,
+                                pipe: None,
                             };
                             // a new inner stream is polled right away, which issues its request
                             if let Pull::Item(_) = self.pull_stream(t, &mut ss) {
@@ -1144,6 +1181,16 @@ impl Model {
     fn pull_stream(&mut self, t: TaskId, ss: &mut StreamSt) -> Pull {
         if ss.ended {
             return Pull::End;
+        }
+        if let Some(p) = ss.pipe {
+            if let Some(v) = self.pipes[p].queue.pop_front() {
+                return Pull::Item(v);
+            }
+            if self.pipes[p].closed {
+                ss.ended = true;
+                return Pull::End;
+            }
+            return Pull::Pending;
         }
         if !ss.issued {
             self.emit_effect(t, ss.key.0, ss.key.1, KIND_MANY);
@@ -1230,7 +1277,9 @@ impl Model {
                             }
                             Pull::End => {
                                 st.regs.push(0);
-                                self.mark_receiver_dead(ss.key);
+                                if ss.pipe.is_none() {
+                                    self.mark_receiver_dead(ss.key);
+                                }
                                 st.pc += 1;
                             }
                             Pull::Pending => {
@@ -1334,6 +1383,7 @@ impl Model {
                         key: (site, 0),
                         issued: false,
                         ended: false,
+                        pipe: None,
                     }));
                     st.pc += 1;
                 }
@@ -1363,6 +1413,35 @@ impl Model {
                     let id = self.new_task(c, Tk::Script(script_state(&script)));
                     self.ready.push_back(id);
                     st.handles.push(id);
+                    st.pc += 1;
+                }
+                Instr::SpawnPipe { script } => {
+                    let c = self.tasks[t].cmd;
+                    let p = self.pipes.len();
+                    self.pipes.push(Pipe {
+                        queue: VecDeque::new(),
+                        consumer: t,
+                        closed: false,
+                    });
+                    let mut child = script_state(&script);
+                    child.pipe_out = Some(p);
+                    let id = self.new_task(c, Tk::Script(child));
+                    self.ready.push_back(id);
+                    st.handles.push(id);
+                    st.streams.push(Some(StreamSt {
+                        key: (0, 0),
+                        issued: true,
+                        ended: false,
+                        pipe: Some(p),
+                    }));
+                    st.pc += 1;
+                }
+                Instr::Send { reg } => {
+                    if let Some(p) = st.pipe_out {
+                        let v = reg.map(|r| st.regs[r]).unwrap_or(0);
+                        self.pipes[p].queue.push_back(v);
+                        self.wake_pipe_consumer(p);
+                    }
                     st.pc += 1;
                 }
                 Instr::Join { handle } => {
@@ -1437,6 +1516,7 @@ fn script_state(script: &Script) -> ScriptSt {
         handles: vec![],
         holds: vec![],
         blocked: None,
+        pipe_out: None,
     }
 }
 
@@ -1451,6 +1531,7 @@ fn chain_state(chain: &Chain, tag: u32) -> ChainSt {
             key: (site, 0),
             issued: false,
             ended: false,
+            pipe: None,
         }),
     };
     let mut has_fu = false;
